@@ -159,6 +159,7 @@ def processLine (line : String) : String :=
       match handle op args impl with
       | some (.ok tag) => s!"ok\t{tag}"
       | some (.bad m) => s!"MISMATCH\tmodel={(m.replace "\n" "\\n").replace "\t" "\\t"}\t{line}"
+      | some (.differs m) => s!"DIFFERS\tmodel={(m.replace "\n" "\\n").replace "\t" "\\t"}\t{line}"
       | none => s!"BAD-LINE\t{line}"
     | [] => s!"BAD-LINE\t{line}"
   | _ => s!"BAD-LINE\t{line}"
